@@ -489,6 +489,79 @@ def narrowed_registration_does_not_depend_on_earlier_lookups(col):
                                       % (default_types, warm, 'h1' if same_handler else 'h2', op, cname, a['warm'], a['cold']), None)
 
 
+def order_of_registration_does_not_pick_among_several_bases(col):
+    """"the choice depends [not] on registration order": an unregistered class with several registered real bases (mixins; which of
+    two incomparable bases is "nearest" the statement leaves open, §6) is served by the same base whichever of them was registered
+    first - twins that differ only in the order of the register() calls answer alike"""
+    shapes = []
+
+    def shape_two():
+        class Near:
+            x = 'attr'
+
+        class Far:
+            x = 'attr'
+
+        class Target(Near, Far):
+            pass
+        return [Near, Far], [Target]
+
+    def shape_deep():
+        class Near:
+            x = 'attr'
+
+        class FarBase:
+            x = 'attr'
+
+        class Far(FarBase):
+            pass
+
+        class Mid(Near, Far):
+            pass
+
+        class Target(Mid):
+            pass
+        return [Near, FarBase], [Mid, Target]
+
+    def shape_three():
+        class A:
+            x = 'attr'
+
+        class B:
+            x = 'attr'
+
+        class C:
+            x = 'attr'
+
+        class Target(A, B, C):
+            pass
+
+        class Other(C, A):
+            pass
+        return [A, B, C], [Target, Other]
+    for shape_name, shape in (('two-bases', shape_two), ('one-base-deeper', shape_deep), ('three-bases', shape_three)):
+        for default_types in (True, False):
+            bases, probes = shape()
+            answers = {}
+            for order in itertools.permutations(range(len(bases))):
+                g = Glommer(register_default_types=default_types)
+                for i in order:
+                    name = bases[i].__name__
+                    g.register(bases[i], get=(lambda o, k, name=name: 'get-of-' + name), iterate=(lambda o, name=name: iter(['iter-of-' + name])))
+                for cls in probes:
+                    for op, spec in (('get', 'x'), ('iterate', [T])):
+                        got = call(g.glom, cls(), spec)
+                        col.count('api_lookups')
+                        col.count('registration_order_twin_lookups')
+                        answers.setdefault((cls.__name__, op), {})[order] = (got.ok, repr(got.value) if got.ok else type(got.exc).__name__)
+            for (cname, op), a in sorted(answers.items()):
+                col.case(('order-among-several-bases', shape_name, default_types, cname, op), True)
+                if len(set(a.values())) > 1:
+                    col.violation('C13/choice-depends-on-registration-order:several-registered-bases:%s' % op,
+                                  'Glommer(register_default_types=%s), %s: %s on a %s instance answers %s depending on the order in which %s were registered'
+                                  % (default_types, shape_name, op, cname, sorted(set(a.values())), [b.__name__ for b in bases]), None)
+
+
 def refused_operations_leave_no_trace(col, contract):
     """"the choice does not depend on which lookups happened before" includes lookups that found NOTHING: after operations that were
     refused for a type (a reduction of a non-iterable, a list spec, an Iter, wildcard walks over such leaves, assign / delete on an
@@ -912,6 +985,7 @@ def run(ctx):
             explicit_false_survives_reregistration(col, contract)
             exact_registration_widened_later(col, contract)
             narrowed_registration_does_not_depend_on_earlier_lookups(col)
+            order_of_registration_does_not_pick_among_several_bases(col)
             refused_operations_leave_no_trace(col, contract)
             nested_entry_points_use_the_calls_registry(col)
             ephemeral_classes(col, contract)
